@@ -2,12 +2,22 @@ package circuitbreaker
 
 import (
 	"errors"
+	"net/http"
 	"time"
 
 	"github.com/0xReLogic/Helios/internal/verifrt"
 )
 
 var verifErrBoom = errors.New("verif: backend failure")
+
+// verifAbortValue: a protected call aborts either with an arbitrary panic
+// value or with the value the reverse proxy uses (http.ErrAbortHandler).
+func verifAbortValue() interface{} {
+	if verifrt.Bool("panicIsErrAbortHandler") {
+		return http.ErrAbortHandler
+	}
+	return "verif: handler aborted"
+}
 
 // verifExec runs one protected call the way net/http would: a panic is recovered by the caller.
 func verifExec(cb *CircuitBreaker, fn func() error) (err error, panicked bool) {
@@ -61,7 +71,7 @@ func VerifC07Seq(k int) {
 			case 1:
 				return verifErrBoom
 			case 2:
-				panic("verif: handler aborted")
+				panic(verifAbortValue())
 			}
 			return nil
 		})
@@ -154,7 +164,7 @@ func VerifC08Recovery(k int) {
 			case 1:
 				return verifErrBoom
 			case 2:
-				panic("verif: handler aborted")
+				panic(verifAbortValue())
 			}
 			return nil
 		})
@@ -219,7 +229,7 @@ func VerifC07Step(maxThr int) {
 		case 1:
 			return verifErrBoom
 		case 2:
-			panic("verif: handler aborted")
+			panic(verifAbortValue())
 		}
 		return nil
 	})
